@@ -81,6 +81,11 @@ def run(ctx: Ctx) -> int:
               "H_YZ 5\nRX 7\nE(0.25) Z7 Z5\nH 5 7\nMR(0.125) 7\nMX 5 7",
                "H 0\nSQRT_X 2\nH 5\nE(0.125) Z5\nELSE_CORRELATED_ERROR(0.25) Y5\nSQRT_ZZ 2 5 2 0\nSQRT_X 2 5\nPAULI_CHANNEL_1(0.0, 0.0, 0.5) 5\nZ 5 2\nT_DAG 2\nH_XZ 2 0\nMX 0 2 5",
                "H 0\nE(0.25) X0\nX_ERROR(0.125) 0\nELSE_CORRELATED_ERROR(0.5) Z0\nDEPOLARIZE1(0.25) 0\nM 0\nE(0.5) Y0\nM(0.125) 0\nMX 0"] + corpus
+    # long chains (more than ten elements: two-digit chain bits) with pairwise different probabilities, and elements without targets
+    ps12 = [0.0625 * k for k in range(1, 13)]
+    corpus = ["\n".join(f"{'E' if i == 0 else 'ELSE_CORRELATED_ERROR'}({p}) X{i}" for i, p in enumerate(ps12)) + "\nM " + " ".join(map(str, range(12))),
+              "H 0\n" + "\n".join(f"{'E' if i == 0 else 'ELSE_CORRELATED_ERROR'}({p}) {'XZ'[i % 2]}{i % 3}" for i, p in enumerate(reversed(ps12[:11]))) + "\nMX 0\nM 1 2",
+              "E(0.25) X1\nELSE_CORRELATED_ERROR(0.5)\nELSE_CORRELATED_ERROR(0.5) X0\nM 0 1", "E(0.25)\nELSE_CORRELATED_ERROR(0.5) X0\nM 0"] + corpus
     cases = [(t, {"corpus": 1}, False) for t in corpus]
     for _ in range(20 if ctx.quick else 600):
         cases.append(gen(rng, nq_max=(4 if rng.random() < 0.3 else 3), max_meas=4, max_noise=3, annotated=False, max_instr=12))
